@@ -55,6 +55,24 @@ type g3Proto struct {
 	Samples []g3Sample
 }
 
+// g3RawMsg is a message of a type the implementation has no Go type for (used for
+// specification messages that the implementation lacks): its CBOR is given verbatim.
+type g3RawMsg struct {
+	t    uint8
+	data []byte
+}
+
+func (m *g3RawMsg) SetCbor(b []byte)             { m.data = b }
+func (m *g3RawMsg) Cbor() []byte                 { return m.data }
+func (m *g3RawMsg) Type() uint8                  { return m.t }
+func (m *g3RawMsg) MarshalCBOR() ([]byte, error) { return m.data, nil }
+
+func g3Raw(t uint8, label string, v any) g3Sample {
+	return g3Sample{Type: t, Variant: 0, Label: label, Make: func() protocol.Message {
+		return &g3RawMsg{t: t, data: must(cbor.Encode(v))}
+	}}
+}
+
 func g3pt() pcommon.Point {
 	h := make([]byte, 32)
 	for i := range h {
@@ -323,6 +341,32 @@ func g3Protocols() []g3Proto {
 				s0(localtxmonitor.MessageTypeReplyHasTx, "ReplyHasTx", func() protocol.Message { return localtxmonitor.NewMsgReplyHasTx(true) }),
 				s0(localtxmonitor.MessageTypeGetSizes, "GetSizes", func() protocol.Message { return localtxmonitor.NewMsgGetSizes() }),
 				s0(localtxmonitor.MessageTypeReplyGetSizes, "ReplyGetSizes", func() protocol.Message { return localtxmonitor.NewMsgReplyGetSizes(100, 10, 1) }),
+			},
+		},
+		{
+			Name: "localtxmonitor-v20", Mode: ntc, Version: 0x8000 + 20,
+			Build: func(role protocol.ProtocolRole, o protocol.ProtocolOptions) *protocol.Protocol {
+				cfg := localtxmonitor.NewConfig()
+				if role == protocol.ProtocolRoleClient {
+					return localtxmonitor.NewClient(o, &cfg).Protocol
+				}
+				return localtxmonitor.NewServer(o, &cfg).Protocol
+			},
+			Samples: []g3Sample{
+				s0(localtxmonitor.MessageTypeDone, "Done", func() protocol.Message { return localtxmonitor.NewMsgDone() }),
+				s0(localtxmonitor.MessageTypeAcquire, "Acquire", func() protocol.Message { return localtxmonitor.NewMsgAcquire() }),
+				s0(localtxmonitor.MessageTypeAcquired, "Acquired", func() protocol.Message { return localtxmonitor.NewMsgAcquired(42) }),
+				s0(localtxmonitor.MessageTypeRelease, "Release", func() protocol.Message { return localtxmonitor.NewMsgRelease() }),
+				s0(localtxmonitor.MessageTypeNextTx, "NextTx", func() protocol.Message { return localtxmonitor.NewMsgNextTx() }),
+				s0(localtxmonitor.MessageTypeReplyNextTx, "ReplyNextTx", func() protocol.Message { return localtxmonitor.NewMsgReplyNextTx(5, []byte{0x80}) }),
+				s0(localtxmonitor.MessageTypeHasTx, "HasTx", func() protocol.Message { return localtxmonitor.NewMsgHasTx(make([]byte, 32)) }),
+				s0(localtxmonitor.MessageTypeReplyHasTx, "ReplyHasTx", func() protocol.Message { return localtxmonitor.NewMsgReplyHasTx(true) }),
+				s0(localtxmonitor.MessageTypeGetSizes, "GetSizes", func() protocol.Message { return localtxmonitor.NewMsgGetSizes() }),
+				s0(localtxmonitor.MessageTypeReplyGetSizes, "ReplyGetSizes", func() protocol.Message { return localtxmonitor.NewMsgReplyGetSizes(100, 10, 1) }),
+				// NodeToClientV_20 and later: MsgGetMeasures / MsgReplyGetMeasures of the specification;
+				// the implementation has no such message types
+				g3Raw(11, "GetMeasures", []any{uint64(11)}),
+				g3Raw(12, "ReplyGetMeasures", []any{uint64(12), uint64(1), map[string][]uint64{"size": {10, 100}}}),
 			},
 		},
 		{
